@@ -406,7 +406,11 @@ def oracle(case, lines, crash=None, ri=True, events=None):
         """reported set and callbacks of one back-end against its interest map at poll time"""
         exp = sp.expected(ready)
         got = dict(act)
-        if len(got) != len(act):
+        if any(c < 0 for c, _ in act):
+            bad.append((i, "%s: the active list holds %d channel(s) that are not channels of this poller (left over from an earlier "
+                           "iteration / another poller: activeChannels_ was not emptied before the poll) and they are dispatched again"
+                        % (name, sum(1 for c, _ in act if c < 0)), set()))
+        elif len(got) != len(act):
             bad.append((i, "%s: a channel is reported twice in one poll" % name, set()))
         for c, r in act:
             v = sp.o.get(c)
@@ -923,6 +927,12 @@ HANDMADE = {
     "second_channel_same_fd": ["open 0 E", "NEW 0 0", "NEW 1 0", "ER 0", "ER 1", "RM 1", "DEL 0", "DA 0", "RM 0", "ER 1", "wr 0", "POLL", "DEL 0"],
     # one loop iteration dispatches the SNAPSHOT: 0's read callback disables 1 (and vice versa) -- the other one is
     # still called in this iteration, and not in the next one
+    # an iteration that handles channels, then iterations whose poll call reports NOTHING (descriptors drained, zero time-out):
+    # the second one must run no callback (the active list is emptied by loop() itself, not only when the poller fills it)
+    "loop_then_idle": ["open 0 E", "open 1 P", "open 2 S", "NEW 0 0", "NEW 1 1", "NEW 2 2", "ER 0", "ER 1", "ER 2", "wr 0", "wr 1", "wr 2",
+                       "LOOP", "drain 0", "drain 1", "drain 2", "LOOP", "LOOP", "wr 1", "LOOP", "drain 1", "LOOP", "POLL"],
+    "loop_then_idle_removed": ["open 0 E", "open 1 E", "NEW 0 0", "NEW 1 1", "ER 0", "ER 1", "wr 0", "wr 1", "ON 0 read DA 0", "ON 0 read RM 0",
+                               "LOOP", "drain 0", "drain 1", "LOOP", "OFF", "DEL 0", "LOOP", "POLL"],
     "stale_batch": ["open 0 E", "open 1 E", "open 2 S", "NEW 0 0", "NEW 1 1", "NEW 2 2", "ER 0", "ER 1", "ER 2", "EW 2", "wr 0", "wr 1",
                     "ON 0 read DA 1", "ON 1 read DA 0", "ON 2 write DW 2", "LOOP", "LOOP", "OFF", "ER 0", "ER 1", "LOOP", "POLL"],
     # a callback removes its own channel (allowed) and re-registers it; another one removes a channel that is still in
@@ -1210,6 +1220,14 @@ def gen_batches(rng, count, prefix="b"):
                 ops.append("%s %d" % (rng.choice(["ER", "EW", "DA", "RM", "DR"]), rng.randrange(n)))
             elif y < 0.75:
                 ops.append("%s %d" % (rng.choice(["wr", "drain"]), rng.randrange(n)))
+            ops.append("LOOP")
+        # always: an iteration with events, then -- every descriptor drained -- an iteration whose poll call reports nothing
+        # unless a channel still subscribes to writing (then that one only): no callback of the previous batch may run again
+        ops.append("OFF")
+        for k in range(n + 1):
+            ops.append("drain %d" % k)
+        ops.append("LOOP")
+        if rng.random() < 0.5:
             ops.append("LOOP")
         ops.append("POLL")
         yield mkcase("%s%d" % (prefix, ci), ops, "batches")
